@@ -341,7 +341,7 @@ func vh_c18_rooted_q()     { vc18_rooted(3, 5) }
 func vh_c18_cleanpath_q()  { vc18_cleanpath(7) }
 func vh_c18_modulepath_q() { vc18_modulepath(4) }
 func vh_c18_step_q()       { vc18_step(6) }
-func vh_c18_expand_q()     { vc18_expand(5) }
+func vh_c18_expand_q()     { vc18_expand(6) }
 
 func vh_c18_validpath_t()  { vc18_validpath(7) }
 func vh_c18_rooted_t()     { vc18_rooted(5, 7) }
